@@ -261,6 +261,17 @@ impl Prop for C11 {
             // mixed: first two modules in one source
             out.push(mk("perm", "sources-mixed:n=4:all".into(), ms.clone(), vec![format!("{}\n{}", pm[0], pm[1]), pm[2].clone(), pm[3].clone()]));
         }
+        // two modules of the same name (a specification split over two files) whose headers differ in tagging default,
+        // extensibility and imports, next to a third module: every order, in one source and as separate sources
+        let s1 = module("Split-Module", "AUTOMATIC TAGS", "IMPORTS T3 FROM Three;\n", &["Alpha ::= SEQUENCE { a INTEGER, b T3 OPTIONAL }".into(), "AlphaCh ::= CHOICE { x NULL, y BOOLEAN }".into()]);
+        let s2 = module("Split-Module", "EXPLICIT TAGS EXTENSIBILITY IMPLIED", "", &["Beta ::= SEQUENCE { c [0] INTEGER, d [1] BOOLEAN }".into(), "BetaE ::= ENUMERATED { p, q }".into()]);
+        let s3 = module("Three", "IMPLICIT TAGS", "", &["T3 ::= ENUMERATED { p, q }".into()]);
+        let ss = vec![s1, s2, s3];
+        for p in perms_of(3) {
+            let pm: Vec<String> = p.iter().map(|i| ss[*i].clone()).collect();
+            out.push(mk("perm", "same-named-modules-in-source:n=3:all".into(), vec![ss.join("\n")], vec![pm.join("\n")]));
+            out.push(mk("perm", "same-named-module-sources:n=3:all".into(), ss.clone(), pm.clone()));
+        }
         // repetition of the identical compilation
         for (i, (src, be)) in alphabet().iter().enumerate() {
             let _ = be;
